@@ -90,6 +90,7 @@ for _m in ('items', 'keys', 'values', 'get', 'pop', 'setdefault'):
 for _m in ('insert', 'extend', 'clear', 'reverse', 'pop', 'remove', 'index', 'count', 'copy', 'sort'):
     METHODS.add((list, _m))
 BUILTINS['next'] = next
+BUILTINS['slice'] = slice
 BUILTINS['object'] = lambda: Obj(sentinel=True)
 BUILTINS['iter'] = iter
 BUILTINS['enumerate'] = lambda x, start=0: list(enumerate(x, start))
@@ -362,10 +363,17 @@ class Evaluator:
             var = self.owner.resolve_var(n.attr) if hasattr(self.owner, 'resolve_var') else None
             node = getattr(var, 'node', None)
             if isinstance(node, ast.AST) and not isinstance(node, (ast.FunctionDef, ast.Lambda)):
+                memo = getattr(self.hook, 'class_values', None)
+                key = (id(getattr(var, 'cls', None) or self.owner), n.attr)
+                if memo is not None and key in memo:
+                    return memo[key]
                 sub = Evaluator({}, self.hook, self.name_hook)
                 sub.owner = self.owner
                 try:
-                    return sub.ev(node)
+                    val = sub.ev(node)
+                    if memo is not None and isinstance(val, (list, dict, set)):
+                        memo[key] = val         # class level *state*: one object for the whole evaluation session
+                    return val
                 except Unsupported:
                     pass
         if isinstance(n, ast.Attribute) and self.name_hook is not None:
@@ -478,6 +486,26 @@ class Evaluator:
                 return fv(*args, **kwargs)
         raise Unsupported('call %s' % ast.unparse(n)[:60])
 
+    def closure(self, fdef):
+        params = [a.arg for a in fdef.args.args]
+        defaults = [self.ev(d) for d in fdef.args.defaults]
+        outer = self
+
+        def fn(*args, **kwargs):
+            env = dict(outer.env)
+            bound = dict(zip(params, args))
+            bound.update(kwargs)
+            for p, d in zip(params[len(params) - len(defaults):], defaults):
+                bound.setdefault(p, d)
+            if set(bound) != set(params):
+                raise Unsupported('call of local function %s with other arguments than its parameters' % fdef.name)
+            env.update(bound)
+            sub = Evaluator(env, outer.hook, outer.name_hook)
+            sub.owner = outer.owner
+            return sub.function(fdef)
+        fn._miniexec = True
+        return fn
+
     def raised(self, exc_node):
         """the Raised for ``raise <exc_node>``: by the source text of the expression, plus its value when the expression is a
         name bound to / a call evaluating to an exception model (ExcVal)"""
@@ -562,7 +590,7 @@ class Evaluator:
                 it = self.ev(st.iter)
                 if isinstance(it, (dict, set, frozenset)):
                     it = sorted(it) if isinstance(it, (set, frozenset)) else list(it)
-                if isinstance(it, Native) and hasattr(it, '__iter__'):
+                if isinstance(it, (Native, ClassRef)) and hasattr(it, '__iter__'):
                     it = list(it)
                 if not isinstance(it, (range, list, tuple, bytes, bytearray, str)) and type(it).__name__ not in ('odict_items', 'dict_items', 'dict_keys', 'dict_values', 'odict_keys', 'odict_values'):
                     raise Unsupported('iteration over %s' % ast.unparse(st.iter))
@@ -578,6 +606,11 @@ class Evaluator:
                         continue
                 if not broke:
                     self.run(st.orelse)
+            elif isinstance(st, ast.FunctionDef):
+                # a local function closing over the environment (a converter built by a factory method)
+                if st.decorator_list or st.args.vararg or st.args.kwarg or st.args.kwonlyargs:
+                    raise Unsupported('local function %s with decorators / star parameters' % st.name)
+                self.env[st.name] = self.closure(st)
             elif isinstance(st, ast.Try):
                 self.run_try(st)
             elif isinstance(st, ast.Break):
@@ -672,10 +705,29 @@ class Evaluator:
 
 
 class ClassRef:
-    """a repository class named by the evaluated code (calls on it resolve through its static MRO)"""
+    """a repository class named by the evaluated code (calls on it resolve through its static MRO); two references to the same
+    class are equal, an enum class iterates over its members"""
 
     def __init__(self, info):
         self.info = info
+
+    def __eq__(self, other):
+        return isinstance(other, ClassRef) and other.info is self.info
+
+    def __ne__(self, other):
+        return not self.__eq__(other)
+
+    def __hash__(self):
+        return hash(id(self.info))
+
+    def __iter__(self):
+        members = getattr(self.info, 'enum_members', None)
+        if not members:
+            raise Unsupported('iteration over the class %s' % getattr(self.info, 'name', '?'))
+        return iter([EnumVal.of(self.info, m) for m in members])
+
+    def __repr__(self):
+        return 'class %s' % getattr(self.info, 'name', '?')
 
 
 class EnumVal(Native):
@@ -719,6 +771,7 @@ def class_call_hook(cls, extra=None, model=None):
     evaluating the callee's body with the same hook; with ``model`` given, module level class names evaluate to ClassRef
     and calls on a ClassRef resolve the same way; ``extra`` is consulted first"""
     module_values = {}
+    class_values = {}       # mutable class level state (caches, registries) keeps its identity during one evaluation session
 
     def call_method(owner, m, n, ev, bound=None):
         params = [a.arg for a in m.node.args.args]
@@ -765,13 +818,26 @@ def class_call_hook(cls, extra=None, model=None):
                     if module_values[key] is not Unsupported:
                         return module_values[key]
             parts = name.split('.')
+            holder = None
             if len(parts) == 2 and (parts[0] in ('cls', 'self') or parts[0] == getattr(cls, 'name', None)) and hasattr(cls, 'resolve_var'):
-                # a class level constant (table, number, string) of the class under evaluation
-                v = cls.resolve_var(parts[1])
+                holder = cls
+            elif len(parts) == 2 and model is not None:
+                r = model.resolve_name(module, parts[0])
+                if r is not None and hasattr(r, 'resolve_var') and hasattr(r, 'mro') and not getattr(r, 'enum_members', None):
+                    holder = r          # ``OtherClass.TABLE``
+            if holder is not None:
+                # a class level constant (table, number, string) of the class under evaluation - or its state (a cache)
+                v = holder.resolve_var(parts[1])
                 node = getattr(v, 'node', v)
                 if isinstance(node, ast.AST):
+                    key = (id(getattr(v, 'cls', None) or holder), parts[1])
+                    if key in class_values:
+                        return class_values[key]
                     try:
-                        return Evaluator({}, make(cls, cls.module), name_hook_for(cls.module, outer)).ev(node)
+                        val = Evaluator({}, make(holder, holder.module), name_hook_for(holder.module, outer)).ev(node)
+                        if isinstance(val, (list, dict, set)):
+                            class_values[key] = val
+                        return val
                     except Unsupported:
                         pass
             if outer is not None:
@@ -832,6 +898,7 @@ def class_call_hook(cls, extra=None, model=None):
                     return call_method(owner, r, n, ev, None)
             return NotImplemented
         hook.owner_class = owner if hasattr(owner, 'resolve_var') else None
+        hook.class_values = class_values
         return hook
     top = make(cls, cls.module)
     top.name_hook_for = name_hook_for
